@@ -165,8 +165,10 @@ def run(chk):
 
         # two sites (and chains of commuting gates): exact propagator of the full Liouvillian
         J = rng.uniform(0.3, 1.0)
-        commuting = rng.random() < 0.5
-        L2 = 2 if not commuting else rng.randint(2, 4)
+        commuting = rng.random() < 0.5 or it == 0
+        L2 = 2 if not commuting else rng.choice([2, 3, 4, 4, 5])
+        if it == 0:
+            L2 = rng.choice([4, 5])          # every run has a chain long enough for subsets with several sites traced out in between
         chain = oqupy.SystemChain([2] * L2)
         Hfull = np.zeros((2 ** L2, 2 ** L2), dtype=complex)
 
@@ -185,10 +187,22 @@ def run(chk):
             chain.add_nn_hamiltonian(i, J * (SZ if commuting else SX), SZ if commuting else SX)
             Hfull += J * emb(SZ if commuting else SX, i) @ emb(SZ if commuting else SX, i + 1)
         r0s = [oqupy.operators.spin_dm(rng.choice(["x+", "y+", "z+"])) for _ in range(L2)]
+        # recorded subsets: neighbours, the two ends (all sites in between traced out), random subsets with gaps
         sites = list(range(L2)) + [(0, 1)]
-        info = {"kind": "exact", "L": L2, "order": order, "commuting_gates": commuting}
-        p = oqupy.PtTebd(oqupy.AugmentedMPS(r0s), chain, [None] * L2, oqupy.PtTebdParameters(dt=dt, order=order, epsrel=eps), dynamics_sites=sites)
-        res = quiet(p.compute, N, progress_type="silent")
+        if L2 >= 3:
+            extra = {(0, L2 - 1)}
+            for _ in range(3):
+                k_ = rng.randint(2, min(3, L2))
+                extra.add(tuple(sorted(rng.sample(range(L2), k_))))
+            sites += sorted(extra - {(0, 1)})
+        info = {"kind": "exact", "L": L2, "order": order, "commuting_gates": commuting, "recorded_subsets": [s_ for s_ in sites if not isinstance(s_, int)]}
+        try:
+            p = oqupy.PtTebd(oqupy.AugmentedMPS(r0s), chain, [None] * L2, oqupy.PtTebdParameters(dt=dt, order=order, epsrel=eps), dynamics_sites=sites)
+            res = quiet(p.compute, N, progress_type="silent")
+        except Exception as ex:
+            chk.search_cases += 1
+            chk.fail("chain-raises", f"PtTebd on a {L2}-site chain recording the subsets {info['recorded_subsets']} raises {ex!r}", info)
+            continue
         rho = r0s[0]
         for r in r0s[1:]:
             rho = np.kron(rho, r)
